@@ -92,17 +92,17 @@ inline long poisson_lo(double lam, double eps) {
 // library uses there (interpolated inverse of E[C|n] for HLL, HIP / ICON for CPC) returns
 // C + corr(C), corr(C) ~ C(C-1)/(6K) to first order (for HIP a random quantity with that mean and
 // s.d. 0.103*C^1.5/K).  Window:  (n-Dhi) + corr(n-Dhi) - slack <= est <= (n-Dlo) + corr(n-Dlo) + slack
-// with the Poisson quantiles Dlo, Dhi at 1e-12 and
-// slack = 0.05*lam + 7*0.103*n^1.5/K + 2e-4*n + 1e-9 (higher-order terms, HIP fluctuation, accuracy
+// with the Poisson quantiles Dlo, Dhi at 1e-14 and
+// slack = 0.05*lam + 7*0.103*n^1.5/K + 2e-5*n + 1e-9 (higher-order terms, HIP fluctuation, accuracy
 // of the interpolation tables).
 struct Window { double lo, hi, lam; };
 inline Window small_range_window(uint64_t n, double K) {
   Window w;
   const double dn = static_cast<double>(n);
   w.lam = dn * (dn - 1.0) / (6.0 * K);
-  const double dhi = static_cast<double>(std::min<long>(poisson_hi(w.lam, 1e-12), n > 0 ? static_cast<long>(n - 1) : 0));
-  const double dlo = static_cast<double>(poisson_lo(w.lam, 1e-12));
-  const double slack = 0.05 * w.lam + 7.0 * 0.103 * dn * std::sqrt(dn) / K + 2e-4 * dn + 1e-9;
+  const double dhi = static_cast<double>(std::min<long>(poisson_hi(w.lam, 1e-14), n > 0 ? static_cast<long>(n - 1) : 0));
+  const double dlo = static_cast<double>(poisson_lo(w.lam, 1e-14));
+  const double slack = 0.05 * w.lam + 7.0 * 0.103 * dn * std::sqrt(dn) / K + 2e-5 * dn + 1e-9;
   auto corr = [&](double c) { return c > 1 ? c * (c - 1.0) / (6.0 * K) : 0.0; };
   w.lo = (dn - dhi) + corr(dn - dhi) - slack;
   w.hi = (dn - dlo) + corr(dn - dlo) + slack;
@@ -155,12 +155,14 @@ inline CellResult check_cell(const std::vector<Trial>& tr, uint64_t n, double rs
     R.cov[sd] = static_cast<double>(in) / T;
   }
   const std::string d = ctx + " T=" + std::to_string(tr.size()) + " " + R.to_string();
-  if (getenv("C06_DUMP")) {   // calibration aid: one line per cell on stderr
+  {   // one record per cell in the shard output (ignored by the driver; kept with --keep for calibration)
     const double bt = 0.2 * rse + 4.0 * rse / std::sqrt(T), st = 1.20 * rse * sd_allow;
-    fprintf(stderr, "CELL %s | bias/tol=%.3f sd/tol=%.3f covmargin=%.3f,%.3f,%.3f stats=%d\n", d.c_str(), bt > 0 ? std::fabs(R.mean) / bt : 0.0, st > 0 ? R.sd / st : 0.0,
-            R.cov[1] - (NOMINAL[1] - 0.05 - 4.0 * std::sqrt(NOMINAL[1] * (1 - NOMINAL[1]) / T)),
-            R.cov[2] - (NOMINAL[2] - 0.05 - 4.0 * std::sqrt(NOMINAL[2] * (1 - NOMINAL[2]) / T)),
-            R.cov[3] - (NOMINAL[3] - 0.05 - 4.0 * std::sqrt(NOMINAL[3] * (1 - NOMINAL[3]) / T)), do_bias_spread ? 1 : 0);
+    char buf[256];
+    snprintf(buf, sizeof buf, " | bias/tol=%.3f sd/tol=%.3f covmargin=%.3f,%.3f,%.3f stats=%d", bt > 0 ? std::fabs(R.mean) / bt : 0.0, st > 0 ? R.sd / st : 0.0,
+             R.cov[1] - (NOMINAL[1] - 0.05 - 4.0 * std::sqrt(NOMINAL[1] * (1 - NOMINAL[1]) / T)),
+             R.cov[2] - (NOMINAL[2] - 0.05 - 4.0 * std::sqrt(NOMINAL[2] * (1 - NOMINAL[2]) / T)),
+             R.cov[3] - (NOMINAL[3] - 0.05 - 4.0 * std::sqrt(NOMINAL[3] * (1 - NOMINAL[3]) / T)), do_bias_spread ? 1 : 0);
+    emit(std::string("{\"t\":\"cell\",\"d\":") + jstr("CELL " + d + buf) + "}");
   }
   if (do_bias_spread) {
     const double bias_tol = 0.2 * rse + 4.0 * rse / std::sqrt(T);
@@ -191,11 +193,16 @@ inline const char* range_class(uint8_t lg_k, uint64_t n) {
   return n <= k ? "small" : (n <= 4 * k ? "transition" : "asymptotic");
 }
 
-// Deterministic cell table: (family, lg_k, multiplier index, trials), ordered by descending cost so
-// that round-robin sharding balances.
+// Deterministic cell table: (family, lg_k, multiplier index, trials).  Order: descending cost, then
+// interleaved with stride 8 (cells 0,8,16,.. then 1,9,17,.. ...): round-robin sharding stays balanced
+// and every prefix of the case list (--max-cases) is a representative sample of all sizes.
 struct Cell { int fam; uint8_t lg_k; int mi; uint32_t trials; uint64_t n; double cost; };
 inline void order_cells(std::vector<Cell>& cells) {
   std::stable_sort(cells.begin(), cells.end(), [](const Cell& a, const Cell& b) { return a.cost > b.cost; });
+  std::vector<Cell> out; out.reserve(cells.size());
+  const size_t S = 8;
+  for (size_t o = 0; o < S; ++o) for (size_t i = o; i < cells.size(); i += S) out.push_back(cells[i]);
+  cells.swap(out);
 }
 
 }} // namespace vf::c06
